@@ -28,6 +28,65 @@ from fvlib.effects import FieldEffects
 CFGS = ["A", "T"]   # T = fuel-vm with feature test-helpers (MemoryClient lives behind it)
 
 
+def reserved_slot_variants(F, rep, rule):
+    """ReceiptsCtx::push: with len == MAX-1 only ScriptResult may be appended, with len == MAX-2 only ScriptResult or
+    Panic. These two slots are what makes `append_panic_receipt(..).expect(..)` and the final script-result push
+    infallible for every program; letting any non-terminal receipt use them makes the host panic reachable."""
+    pn, pf = F.find(r"^fuel_vm::interpreter::receipts::ReceiptsCtx::push$", ["fuel_vm"], one=True)
+    cfg = CFG(pf)
+    where = "%s:%s" % (pf["file"], pf["line"])
+    names = {k: v["name"] for k, v in enumerate(F.adt("fuel_tx::receipt::Receipt")["variants"])}
+    appends = [i for i, c, args, *_ in calls(pf) if callee_matches(c, r"Vec.*::push$")]
+    want = {1: {"ScriptResult"}, 2: {"ScriptResult", "Panic"}}
+    found = {}
+    for g in guards(pf):
+        if g["op"] in ("Eq", "Ne") and g["a_desc"] == "call:len(arg:self.receipts)":
+            m = re.match(r"^Sub(?:WithOverflow|Unchecked)?\(const:.*ReceiptsCtx::MAX_RECEIPTS,const:(\d)\)$", g["b_desc"])
+            if not m:
+                continue
+            k = int(m.group(1))
+            eq_side = g["t"] if g["op"] == "Eq" else g["f"]
+            ne_side = g["f"] if g["op"] == "Eq" else g["t"]
+            # the discriminant switch on the receipt that is only reachable on the eq side
+            allowed = None
+            for b in sorted(cfg.reachable_incl(eq_side) - cfg.reachable_incl(ne_side)):
+                t = pf["bbs"][b]["t"]
+                if t[0] == "switch" and describe(pf, t[1], depth=6) == "disc(arg:receipt)":
+                    # variants from which the append is reachable without passing the TooManyReceipts construction
+                    errb = set(agg_blocks(pf, r"PanicReason$", "TooManyReceipts"))
+                    allowed = set()
+                    arms = [(names.get(v, str(v)), tg) for v, tg in t[2]]
+                    listed = {nm for nm, _ in arms}
+                    for nm, tg in arms + [("_", t[3])]:
+                        eff = _follow_flag(pf, tg)
+                        if any(a == eff or a in cfg._reach_from([eff], avoid=errb) for a in appends) and eff not in errb:
+                            allowed |= ({nm} if nm != "_" else {x for x in names.values() if x not in listed})
+                    break
+            found[k] = allowed
+    for k in (1, 2):
+        got = found.get(k)
+        rep.check(got == want[k], rule, "push:reserved-slot(MAX-%d)-accepts-only-%s" % (k, "|".join(sorted(want[k]))), where,
+                  "with len == MAX_RECEIPTS-%d only %s may be appended (the slot is reserved so that the panic / script-result receipt can never fail); accepted now: %s"
+                  % (k, sorted(want[k]), sorted(got) if got is not None else None))
+
+
+def _follow_flag(pf, tg):
+    """`matches!` lowers to: arm block sets a bool flag, jumps to a join that switches on the flag. Resolve the
+    join for this arm's constant; returns the block control really continues at."""
+    bb = pf["bbs"][tg]
+    flags = {s[1][0]: s[2][1][1].get("v") for s in bb["s"] if s[0] == "=" and len(s[1]) == 1 and s[2][0] == "use" and s[2][1][0] == "k" and isinstance(s[2][1][1].get("v"), (bool, int))}
+    if bb["t"][0] != "goto" or not flags:
+        return tg
+    j = pf["bbs"][bb["t"][1]]
+    if j["s"] or j["t"][0] != "switch" or j["t"][1][0] == "k" or len(j["t"][1][1]) != 1 or j["t"][1][1][0] not in flags:
+        return tg
+    v = int(flags[j["t"][1][1][0]])
+    for val, nxt in j["t"][2]:
+        if val == v:
+            return nxt
+    return j["t"][3]
+
+
 def run(F, rep, tier, allfacts):
     cg = CallGraph(F, ["fuel_vm"])
     rep.rule("COUNT-script_result", "exactly one script_result receipt on every completing path; panic receipt only on the instruction_result()==Some arm; result/state pair table; root after last push")
@@ -138,6 +197,7 @@ def run(F, rep, tier, allfacts):
     rep.check(okl, "COV-receipts", "push:limit-tests-before-append", where,
               "the full test (len == MAX_RECEIPTS = 65535) and both reserved-slot tests (len == MAX-1, len == MAX-2) must dominate the tree update and the list "
               "append (a rejected receipt must leave both untouched); guards found for offsets %s" % sorted(lim))
+    reserved_slot_variants(F, rep, "COV-receipts")
     fe = FieldEffects(cg, r"^fuel_vm::interpreter::receipts::ReceiptsCtx$", r"fuel_vm::interpreter::receipts::ReceiptsCtx")
     allowed = {
         "receipts": {"ReceiptsCtx::push", "ReceiptsCtx::clear", "ReceiptsCtxMut::<'a>::receipts_mut", "<impl From for Vec>::from"},
